@@ -162,6 +162,20 @@ func c05before(c *Ctx, a, b gdate) {
 			break
 		}
 	}
+	// the same through date ranges and DATE nodes (a single date is the range from itself to itself:
+	// DateRange.IsBefore compares the starts, IsAfter the ends)
+	{
+		ra, rb := gedcom.NewDateRange(da, da), gedcom.NewDateRange(db, db)
+		if b2, a2 := ra.IsBefore(rb), ra.IsAfter(rb); b2 != bef || a2 != aft {
+			c.Oracle("", "DateRange.IsBefore/IsAfter of two single dates differ from the dates' own", map[string]string{"a": a.String(), "b": b.String()},
+				bit(b2)+bit(a2), bit(bef)+bit(aft))
+		}
+		na, nb := gedcom.NewDateNode(da.String()), gedcom.NewDateNode(db.String())
+		if b2, a2 := na.IsBefore(nb), na.IsAfter(nb); b2 != bef || a2 != aft {
+			c.Oracle("", "DateNode.IsBefore/IsAfter of two single dates differ from the dates' own", map[string]string{"a": da.String(), "b": db.String()},
+				bit(b2)+bit(a2), bit(bef)+bit(aft))
+		}
+	}
 	if bef && aft {
 		c.Oracle("", "a date is both before and after another", map[string]string{"a": a.String(), "b": b.String()}, "11", "at most one")
 	}
